@@ -28,7 +28,7 @@ import time
 import traceback
 
 ROOT = os.path.dirname(os.path.dirname(os.path.dirname(os.path.abspath(__file__))))
-CASE_TIMEOUT_S = int(os.environ.get("VERIF_CASE_TIMEOUT", "120"))
+CASE_TIMEOUT_S = int(os.environ.get("VERIF_CASE_TIMEOUT", "900"))
 
 
 class CaseTimeout(BaseException):
@@ -171,11 +171,14 @@ def execute(prop, tier, seed, workers=None, replay=None, limit=None):
             new_sigs.append((sig, occ))
 
     viol_lines = []
+    unreproduced = []
     os.makedirs(os.path.join(ROOT, "replays", prop), exist_ok=True)
+    confirmed = []
     for k, (sig, occ) in enumerate(new_sigs[:25]):
         idx, v = occ[0]
         case = v.get("case") or cases[idx]
-        # determinism discipline: must reproduce twice from a fresh process
+        # determinism discipline: a violation is only reported when it reproduces twice from a fresh process;
+        # anything else (e.g. a case that timed out on a loaded machine) is harness nondeterminism, not a verdict
         if not replay and os.environ.get("VERIF_NO_RERUN") != "1":
             try:
                 r1 = rerun_fresh(modname, case)
@@ -190,7 +193,13 @@ def execute(prop, tier, seed, workers=None, replay=None, limit=None):
             json.dump({"property": prop, "clause": sig[0], "key": sig[1], "detail": v.get("detail", ""),
                        "occurrences": len(occ), "reproduced_twice_fresh": repro, "case": case}, fh, indent=1,
                       default=str)
-        viol_lines.append((sig, path, repro, v.get("detail", "")))
+        if repro:
+            viol_lines.append((sig, path, repro, v.get("detail", "")))
+            confirmed.append((sig, occ))
+        else:
+            unreproduced.append({"clause": sig[0], "key": sig[1], "replay": path})
+    confirmed += new_sigs[25:]
+    new_sigs = confirmed
 
     with open(os.path.join(ROOT, "replays", prop, f"{tier}_signatures.json"), "w") as fh:
         json.dump([{"clause": sig[0], "key": sig[1], "n": len(occ), "detail": occ[0][1].get("detail", "")[:1500]}
@@ -198,6 +207,8 @@ def execute(prop, tier, seed, workers=None, replay=None, limit=None):
     wall = time.time() - t0
     cov = aggregate(mod, plan, cases, results, seed)
     cov["known_findings_hit"] = {fid: cnt for fid, (f, cnt) in known_hits.items()}
+    if unreproduced:
+        cov["unreproduced_not_reported"] = unreproduced
     ev = {
         "property_id": prop, "tier": tier, "seed": seed, "level": getattr(mod, "LEVEL", "model_checking"),
         "coverage": cov,
@@ -212,9 +223,11 @@ def execute(prop, tier, seed, workers=None, replay=None, limit=None):
         write_evidence(prop, ev)
     for fid, (f, cnt) in sorted(known_hits.items()):
         print(f"KNOWN-FINDING: property={prop} {fid}: {f.get('what', '')} [{cnt} case(s)]")
+    for u in unreproduced:
+        print(f"NOTE: {prop} clause={u['clause']} key={u['key']} did not reproduce twice in a fresh process "
+              f"(harness nondeterminism, e.g. a timeout under load); not reported as a violation; replay kept at {u['replay']}")
     for sig, path, repro, detail in viol_lines:
-        flag = "" if repro else " (NOT reproduced twice in a fresh process: treat as harness nondeterminism)"
-        print(f"VIOLATION property={prop} replay={path} clause={sig[0]} key={sig[1]}{flag}")
+        print(f"VIOLATION property={prop} replay={path} clause={sig[0]} key={sig[1]}")
         if detail:
             print("   " + str(detail)[:600].replace("\n", "\n   "))
     print(f"[{prop}] tier={tier} seed={seed} cases={n} states={cov.get('states')} transitions={cov.get('transitions')} "
